@@ -2,6 +2,7 @@ package main
 
 import (
 	"fmt"
+	"go/ast"
 	"go/types"
 	"math/big"
 	"strings"
@@ -52,6 +53,8 @@ type Unit struct {
 	defs       []*Term
 	hintsUsed  map[string]bool
 	headCounter map[int]int
+	loopOrdOf   map[ast.Node]int
+	nLoops      int
 }
 
 type Exit struct {
